@@ -76,8 +76,16 @@ Definition enc_final (b : builder) : list (list N) :=
       ++ map (fun s => enc_convert (convert d s empty_builder)) conv_strats
   end.
 
+(* a history whose closes use the generic builder's own strategies is a history of GenericRecordDefinitionBuilder:
+   no offsets are ever assigned, so the final observation is whether build() panics, nothing else *)
+Definition is_generic (h : list req) : bool :=
+  existsb (fun r => match r with Close SGAppend | Close SGAppendRev => true | _ => false end) h.
+Definition enc_final_generic (b : builder) : list (list N) :=
+  match build b with None => [[0]] | Some _ => [[1]] end.
+
 Definition observe (h : list req) : list (list N) :=
-  let '(b, os) := enc_trace empty_builder h in os ++ enc_final b.
+  let '(b, os) := enc_trace empty_builder h in
+  os ++ (if is_generic h then enc_final_generic b else enc_final b).
 
 Fixpoint list_eqb (a b : list N) : bool :=
   match a, b with
